@@ -2,7 +2,7 @@
 use super::alnspec::*;
 use crate::fw::*;
 use crate::models::align::*;
-use bio::alignment::pairwise::{Aligner, MIN_SCORE};
+use bio::alignment::pairwise::{Aligner, MatchFunc, Scoring, MIN_SCORE};
 use bio::alignment::{Alignment, AlignmentOperation};
 
 pub struct C01;
@@ -51,18 +51,18 @@ fn directed_specs() -> Vec<Spec> {
     };
     let m = MIN_SCORE;
     vec![
-        Spec { mf: c(1, -1), open: -5, ext: -1, clips: [m; 4], sigma: 3 },
-        Spec { mf: c(1, -1), open: -5, ext: -1, clips: [0; 4], sigma: 3 },
-        Spec { mf: c(0, 0), open: 0, ext: 0, clips: [0; 4], sigma: 3 },
-        Spec { mf: c(0, 0), open: 0, ext: 0, clips: [m; 4], sigma: 3 },
-        Spec { mf: c(2, -3), open: -4, ext: 0, clips: [-3, m, 0, -1], sigma: 3 },
-        Spec { mf: c(1, 0), open: 0, ext: -1, clips: [m, -2, -1000, 0], sigma: 3 },
-        Spec { mf: c(1, -1), open: -1, ext: -1, clips: [-1, -1, -1, -1], sigma: 3 },
-        Spec { mf: c(3, -1), open: -2, ext: -2, clips: [0, m, m, 0], sigma: 3 },
+        Spec { mf: c(1, -1), open: -5, ext: -1, clips: [m; 4], sigma: 3, ms_hint: true },
+        Spec { mf: c(1, -1), open: -5, ext: -1, clips: [0; 4], sigma: 3, ms_hint: true },
+        Spec { mf: c(0, 0), open: 0, ext: 0, clips: [0; 4], sigma: 3, ms_hint: true },
+        Spec { mf: c(0, 0), open: 0, ext: 0, clips: [m; 4], sigma: 3, ms_hint: true },
+        Spec { mf: c(2, -3), open: -4, ext: 0, clips: [-3, m, 0, -1], sigma: 3, ms_hint: true },
+        Spec { mf: c(1, 0), open: 0, ext: -1, clips: [m, -2, -1000, 0], sigma: 3, ms_hint: true },
+        Spec { mf: c(1, -1), open: -1, ext: -1, clips: [-1, -1, -1, -1], sigma: 3, ms_hint: true },
+        Spec { mf: c(3, -1), open: -2, ext: -2, clips: [0, m, m, 0], sigma: 3, ms_hint: true },
     ]
 }
 
-pub fn call_full<F: Fn(u8, u8) -> i32>(al: &mut Aligner<F>, mode: usize, x: &[u8], y: &[u8]) -> Alignment {
+pub fn call_full<F: MatchFunc>(al: &mut Aligner<F>, mode: usize, x: &[u8], y: &[u8]) -> Alignment {
     match mode {
         0 => al.custom(x, y),
         1 => al.global(x, y),
@@ -73,7 +73,7 @@ pub fn call_full<F: Fn(u8, u8) -> i32>(al: &mut Aligner<F>, mode: usize, x: &[u8
 
 impl C01 {
     /// check one call on a (possibly reused) aligner
-    fn check_call<F: Fn(u8, u8) -> i32 + Clone + Copy>(
+    fn check_call<F: MatchFunc>(
         &self,
         ctx: &mut Ctx,
         al: &mut Aligner<F>,
@@ -233,10 +233,49 @@ impl Monitor for C01 {
             }
             return;
         }
-        let spec = random_spec(rng);
+        let mut spec = random_spec(rng);
         let alpha = spec.alphabet();
         let cap = *rng.pick(&[0usize, 0, 5, 200]);
-        let mut al = Aligner::with_capacity_and_scoring(cap, *rng.pick(&[0usize, 7, 200]), spec.scoring());
+        let cap2 = *rng.pick(&[0usize, 7, 200]);
+        let mfs = spec.mf;
+        // every public way of constructing an aligner
+        match rng.below(8) {
+            0 | 1 | 2 => self.history(ctx, rng, Aligner::with_capacity_and_scoring(cap, cap2, spec.scoring()), &spec, &alpha),
+            3 | 4 => self.history(ctx, rng, Aligner::with_scoring(spec.scoring()), &spec, &alpha),
+            5 => {
+                // new(): clip penalties are the defaults (MIN_SCORE)
+                spec.clips = [MIN_SCORE; 4];
+                self.history(ctx, rng, Aligner::new(spec.open, spec.ext, move |a: u8, b: u8| mfs.s(a, b)), &spec, &alpha)
+            }
+            6 => {
+                spec.clips = [MIN_SCORE; 4];
+                self.history(ctx, rng, Aligner::with_capacity(cap, cap2, spec.open, spec.ext, move |a: u8, b: u8| mfs.s(a, b)), &spec, &alpha)
+            }
+            _ => {
+                // Scoring::from_scores (MatchParams) with the clip builder methods
+                spec.mf.kind = 0;
+                spec.mf.ms = spec.mf.ms.max(0);
+                spec.mf.mm = spec.mf.mm.min(0);
+                let mut sc = Scoring::from_scores(spec.open, spec.ext, spec.mf.ms, spec.mf.mm);
+                if spec.clips[0] == spec.clips[1] && rng.chance(1, 2) {
+                    sc = sc.xclip(spec.clips[0]);
+                } else {
+                    sc = sc.xclip_prefix(spec.clips[0]).xclip_suffix(spec.clips[1]);
+                }
+                if spec.clips[2] == spec.clips[3] && rng.chance(1, 2) {
+                    sc = sc.yclip(spec.clips[2]);
+                } else {
+                    sc = sc.yclip_prefix(spec.clips[2]).yclip_suffix(spec.clips[3]);
+                }
+                ctx.count("aligners_built_from_scores_and_clip_builders", 1);
+                self.history(ctx, rng, Aligner::with_scoring(sc), &spec, &alpha)
+            }
+        }
+    }
+}
+
+impl C01 {
+    fn history<F: MatchFunc>(&self, ctx: &mut Ctx, rng: &mut Rng, mut al: Aligner<F>, spec: &Spec, alpha: &[u8]) {
         let calls = rng.range(1, 6);
         let maxmed = ctx.by_tier(12, 30, 60);
         for h in 0..calls {
@@ -246,15 +285,15 @@ impl Monitor for C01 {
             } else {
                 (rng.range(8, maxmed), rng.range(8, maxmed))
             };
-            let x = rng.bytes_over(&alpha, m);
+            let x = rng.bytes_over(alpha, m);
             let y = match rng.below(4) {
-                0 => related(rng, &x, &alpha, rng.clone().range(0, 5)),
+                0 => related(rng, &x, alpha, rng.clone().range(0, 5)),
                 1 if m > 0 => {
                     // x embedded in y or a slice of x
                     if rng.chance(1, 2) {
-                        let mut y = rng.bytes_over(&alpha, rng.clone().range(0, 4));
+                        let mut y = rng.bytes_over(alpha, rng.clone().range(0, 4));
                         y.extend_from_slice(&x);
-                        let t = rng.bytes_over(&alpha, rng.clone().range(0, 4));
+                        let t = rng.bytes_over(alpha, rng.clone().range(0, 4));
                         y.extend(t);
                         y
                     } else {
@@ -263,10 +302,10 @@ impl Monitor for C01 {
                         x[s..e].to_vec()
                     }
                 }
-                _ => rng.bytes_over(&alpha, n),
+                _ => rng.bytes_over(alpha, n),
             };
             let mode = rng.usize(4);
-            if !self.check_call(ctx, &mut al, &spec, mode, &x, &y, h) {
+            if !self.check_call(ctx, &mut al, spec, mode, &x, &y, h) {
                 break;
             }
         }
